@@ -13,6 +13,9 @@ os.environ['VERIF_FRESH_PARSER'] = '1'     # the real thing: no parser cache in 
 from mc import impl  # noqa
 
 
+ISOLATED = [False]
+
+
 def digest(outs):
     d = {}
     for name, o in outs.items():
@@ -35,7 +38,14 @@ def generate(specs, whitelist, root, sub, args_override=None):
     if out.kind != 'ok':
         return {'compile': out.brief()}, {}
     os.environ['VERIF_SCRATCH'] = root
-    o = impl.backend_outputs(out.api, args_override=args_override)
+    if ISOLATED[0]:
+        # every backend on its own freshly compiled Api (nothing another backend did to the Api can matter)
+        o = {}
+        for name in impl.BACKEND_RUNS:
+            api = impl.compile_specs([tuple(x) for x in specs], **kw).api
+            o.update(impl.backend_outputs(api, [name], args_override=args_override))
+    else:
+        o = impl.backend_outputs(out.api, args_override=args_override)
     return digest(o), texts(o)
 
 
@@ -51,6 +61,7 @@ def main():
         generate(job['unrelated'], None, root, 'u')
     if job['history'] == 'after-other-options':
         generate(job['specs'], job.get('whitelist'), root, 'o', job.get('pre_args'))
+    ISOLATED[0] = job['history'] == 'isolated'
     d, t = generate(job['specs'], job.get('whitelist'), root, 'a', job.get('args'))
     runs.append(d)
     if job['history'] == 'twice':
